@@ -34,12 +34,22 @@ func checkCase(c Case) (*h.Failure, string) {
 	mk := func(kind, detail string) *h.Failure {
 		return &h.Failure{Kind: kind, Detail: detail, Src: c.Src, Case: c}
 	}
-	f1, _, ok, crash := fmtx.Format(c.Src)
+	f1, prog, ok, crash := fmtx.Format(c.Src)
 	if crash != nil {
 		return &h.Failure{Kind: crash.Class, Detail: crash.Msg, Src: c.Src, Case: c, Callsite: rec.TopFrame(crash.Stack)}, ""
 	}
 	if !ok {
 		return nil, ""
+	}
+	// Program.Format applied repeatedly to the same parsed program
+	for i := 0; i < 2; i++ {
+		again, crashAgain := fmtx.FormatAgain(prog)
+		if crashAgain != nil {
+			return &h.Failure{Kind: "format-again-" + crashAgain.Class, Detail: "calling Format a second time on the same parsed program crashed: " + crashAgain.Msg, Src: c.Src, Case: c, Callsite: rec.TopFrame(crashAgain.Stack)}, f1
+		}
+		if again != f1 {
+			return mk("format-again-differs", fmt.Sprintf("calling Format again on the same parsed program gives different text\nfirst:\n%s\nagain:\n%s", f1, again)), f1
+		}
 	}
 	f2, _, ok2, crash2 := fmtx.Format(f1)
 	if crash2 != nil || !ok2 {
